@@ -44,7 +44,16 @@ def run(P, C):
              "each range starts as the axis length: %s" % rng)
         sz = [f.render(d["init"]).replace("this->", "").replace(" ", "") for i in f.walk() if f.k(i) == "DeclStmt" for d in f.nodes[i]["decls"]
               if d.get("name") == "size" and d.get("init", -1) >= 0]
-        C.ob("GE-1", name, "coefficient-count", sz == ["(naxes[0]*strides[0])"], f.where(), "all coefficients are visited: %s" % sz)
+        # ... or the bound written out in the loop that visits the coefficients
+        direct = []
+        if ins:
+            for L in [a for a in f.ancestors(ins[0]) if f.k(a) == "ForStmt"][-1:]:
+                c = f.nodes[L].get("cond", -1)
+                ini = f.render(f.nodes[L]["init"]).replace(" ", "") if f.nodes[L].get("init", -1) >= 0 else ""
+                if c >= 0 and f.k(f.strip(c)) == "BinaryOperator" and f.nodes[f.strip(c)].get("op") == "<" and ini.endswith("=0"):
+                    direct.append(f.render(f.nodes[f.strip(c)]["ch"][1]).replace("this->", "").replace(" ", ""))
+        C.ob("GE-1", name, "coefficient-count", sz == ["(naxes[0]*strides[0])"] or (not sz and direct == ["(naxes[0]*strides[0])"]), f.where(),
+             "all coefficients are visited: %s" % (sz or direct))
         # GE-2
         bb = [i for i, cal in f.calls() if cal and cal["name"] == "bsplinebasis"]
         sm = [i for i, cal in f.calls() if cal and cal["name"] == "slicemultiply"]
@@ -393,11 +402,30 @@ def ge9(P, C):
             if re.search(r"=\(j/stride\)\)$", t):
                 ok = direction == "ascending" and texts == ["(stride/=a->ranges[(%s%%a->ndim)])" % v, t, "(j=(j%stride))"]
                 # stride starts as the product of all the other ranges
-                prod = any(f.k(M) == "ForStmt" and loop_shape(M)[1] == "descending" and
-                           [R(x) for x in (f.ch(f.nodes[M]["body"]) if f.k(f.nodes[M]["body"]) == "CompoundStmt" else [f.nodes[M]["body"]])] ==
-                           ["(stride*=a->ranges[(%s%%a->ndim)])" % loop_shape(M)[0]] and f.seq(M) < f.seq(L) and
-                           next((a for a in f.ancestors(M) if f.k(a) == "ForStmt"), None) == next((a for a in f.ancestors(L) if f.k(a) == "ForStmt"), None)
-                           for M in f.walk())
+                def product_loop(M, var):
+                    return f.k(M) == "ForStmt" and loop_shape(M)[1] == "descending" and \
+                        [R(x) for x in (f.ch(f.nodes[M]["body"]) if f.k(f.nodes[M]["body"]) == "CompoundStmt" else [f.nodes[M]["body"]])] == \
+                        ["(%s*=a->ranges[(%s%%a->ndim)])" % (var, loop_shape(M)[0])]
+                outer = lambda x: next((a for a in f.ancestors(x) if f.k(a) == "ForStmt"), None)        # noqa: E731
+                def starts_at_one(M, var):
+                    ps = f.ch(f.parent[M])
+                    return M in ps and ps.index(M) > 0 and R(ps[ps.index(M) - 1]) == "(%s=1)" % var
+                prod = any(product_loop(M, "stride") and f.seq(M) < f.seq(L) and outer(M) == outer(L) and starts_at_one(M, "stride") for M in f.walk())
+                if not prod:
+                    # the product hoisted out of the row loop: `p = 1; for(k descending) p *= ranges[k%n];` once, `stride = p` per row; p has no
+                    # other store
+                    sibs = f.ch(f.parent[L]) if f.k(f.parent[L]) == "CompoundStmt" else []
+                    before = [R(x) for x in sibs[:sibs.index(L)]] if L in sibs else []
+                    m = next((re.match(r"^\(stride=(\w+)\)$", t) for t in reversed(before) if t.startswith("(stride")), None)
+                    if m:
+                        pv = m.group(1)
+                        writes = [R(x) for x in f.walk() if f.k(x) in ("BinaryOperator", "CompoundAssignOperator", "UnaryOperator") and
+                                  re.match(r"^\(%s(=|\*=|\+=|-=|/=|\+\+|--)" % pv, R(x)) and not R(x).startswith("(%s==" % pv)]
+                        loops = [M for M in f.walk() if product_loop(M, pv) and f.seq(M) < f.seq(L) and outer(M) is None]
+                        if len(loops) == 1 and sorted(writes) == sorted(["(%s=1)" % pv, "(%s*=a->ranges[(%s%%a->ndim)])" % (pv, loop_shape(loops[0])[0])]):
+                            ps = f.ch(f.parent[loops[0]])
+                            k0 = ps.index(loops[0])
+                            prod = k0 > 0 and R(ps[k0 - 1]) == "(%s=1)" % pv
                 unflat = (L, ok and prod, "un-flatten by dividing down: %s over %s, stride = product of the other ranges: %s" % (direction, v, prod))
             elif re.search(r"=\(j%%a->ranges\[\(%s%%a->ndim\)\]\)\)$" % v, t):
                 ok = direction == "descending" and texts == [t, "(j/=a->ranges[(%s%%a->ndim)])" % v]
